@@ -2,6 +2,7 @@ package checks
 
 import (
 	"bytes"
+	"errors"
 	"fmt"
 
 	"verifsim/hx"
@@ -25,10 +26,16 @@ type simStore struct {
 	// arrowBytes uploaded per task name since the last reset
 	perTask map[string]int64
 	uploads int
+	// failUp, when set, decides per upload whether the store refuses it
+	failUp func() bool
 }
 
 func (s *simStore) Upload(data []byte, schema *arrow.Schema, contentEncoding string) (string, error) {
 	s.sim.Y("store.upload")
+	if s.failUp != nil && s.failUp() {
+		s.sim.Fault("upload-failure")
+		return "", errors.New("sim: object store refused the upload")
+	}
 	s.n++
 	url := fmt.Sprintf("https://store.sim/obj/%d", s.n)
 	raw := data
@@ -126,11 +133,20 @@ func C19(e *simkern.Env) {
 	batchLimit := tp.Draw(4)
 	compress := tp.Bool(1, 3)
 	extCompress := storage && tp.Bool(1, 2)
+	upFail := storage && tp.Bool(1, 2) // the object store refuses one upload in four
+	if upFail && tp.Bool(1, 2) {
+		// long producer turns with several uploads around the external cap, so
+		// that a refused upload lands between two accepted ones
+		batchLimit, wireCap = 0, 0
+		extCap = int64(pad) * int64(tp.Pick(3, 4, 5))
+		threshold = 64
+	}
 	e.Knob("pad", pad)
 	e.Knob("max_response_bytes", wireCap)
 	e.Knob("max_externalized_response_bytes", extCap)
 	e.Knob("threshold", threshold)
 	e.Knob("storage", storage)
+	e.Knob("uploads_may_fail", upFail)
 	e.Knob("batch_limit", batchLimit)
 	e.Knob("compression", compress)
 	var sample []string
@@ -139,6 +155,9 @@ func C19(e *simkern.Env) {
 		defer sim.Close()
 		hx.Rec.Reset()
 		store := &simStore{sim: sim, objects: map[string][]byte{}, perTask: map[string]int64{}}
+		if upFail {
+			store.failUp = func() bool { return tp.Draw(4) == 0 }
+		}
 		comp := -1
 		if compress {
 			comp = 0
@@ -298,6 +317,21 @@ func C19(e *simkern.Env) {
 							}
 							sim.Probe("producer-conserved")
 						}
+						if storage && !ended && res.ClientErr == nil {
+							// with external storage the values travel as pointers; the
+							// stream must still deliver one batch per scripted turn
+							got := 0
+							for _, t := range res.Turns {
+								if t.Data != nil {
+									got++
+								}
+							}
+							if got != nt {
+								e.Violate("producer-stream-truncated", "producer-conservation", "producer of %d batches: the client received %d data/pointer batches over %d responses and a clean end of stream (ended %q)", nt, got, responses, res.Ended)
+								return
+							}
+							sim.Probe("producer-conserved-by-count")
+						}
 						if responses > 1 {
 							sim.Probe("producer-multi-turn")
 						}
@@ -319,11 +353,11 @@ func init() {
 	Registry["C19"] = &Info{
 		Run:   C19,
 		Level: "exploration",
-		Rule:  "each run draws payload size (50..4000 bytes per row), max_response_bytes around the sizes the workload emits, external storage on/off with threshold and max_externalized_response_bytes around them, upload compression, producer batch limit 0-3 and response compression; 1-2 concurrent client tasks issue unary calls, exchange streams and producer streams (2-9 turns, 1-4 rows per batch); every response is judged; producer transcripts are checked for conservation (whole stream, once, in order) when storage is off; distinct = schedule fingerprint; non-trivial = a cap is configured and at least one response was judged",
+		Rule:  "each run draws payload size (50..4000 bytes per row), max_response_bytes around the sizes the workload emits, external storage on/off with threshold and max_externalized_response_bytes around them, upload compression, producer batch limit 0-3 and response compression; 1-2 concurrent client tasks issue unary calls, exchange streams and producer streams (2-9 turns, 1-4 rows per batch); every response is judged; the object store refuses one upload in four in half of the runs with storage; producer transcripts are checked for conservation (whole stream, once, in order when storage is off; one data or pointer batch per scripted turn when it is on); distinct = schedule fingerprint; non-trivial = a cap is configured and at least one response was judged",
 		Real:  []string{"vgirpc.HttpServer unary / exchange / producer paths, enforceResponseBudgets, checkExternalBudget, externalizeBatchCtx, response compression"},
 		Stub:  []string{"HTTP transport", "object store behind ExternalStorage (records Arrow size of every upload per request)", "scripted handlers"},
 		Quick: 600, Thorough: 60000,
-		Warm: warmHTTP,
+		Warm: warmHTTP, FaultKinds: []string{"upload-failure"},
 		Assumptions: []string{"unary/exchange wire cap is judged on the bytes that crossed the wire (post-compression); the producer clause is judged on the uncompressed IPC body, re-encoded batch by batch with the same Arrow library to obtain prefix sizes", "Arrow size of an upload = sum of top-level column buffer lengths of the uploaded batches"},
 	}
 }
